@@ -69,6 +69,29 @@ def run(ctx):
     ctx.evaluations = len(traces)
     ctx.extra["scenarios_skipped"] = len(skipped)
     ctx.judge(sd, "RendezvousTrace", "Judge_Rendezvous.cfg", merged, scenario_of=by_id)
+    # Composition (growth beyond the three call sites): real PutB then real Get against fake stores that
+    # accept/refuse writes and are up/down at read time -- "a block written with enough replicas is found at
+    # the first positions a reader tries" (KeepE2E.tla; lemmas L1 fault tolerance, L2 first position)
+    if not ctx.replay_scn:
+        e2e, _ = ctx.gen(sd, "KeepE2E", "MC_KeepE2E_big.cfg" if ctx.thorough else "MC_KeepE2E.cfg", timeout=1800,
+                         label="composed write/read: configurations + lemmas L1, L2")
+        if len(e2e) > (20000 if ctx.thorough else 3200):
+            rnd.shuffle(e2e)
+            e2e = e2e[:20000 if ctx.thorough else 3200]
+        for i, s in enumerate(e2e):
+            s["id"] = 3 * 10 ** 6 + i
+            s["rseed"] = ctx.seed
+        for i in range(2000 if ctx.thorough else 300):
+            n = rnd.randint(1, 8)
+            wr = [x for x in range(1, n + 1) if rnd.random() < 0.8]
+            e2e.append({"id": 4 * 10 ** 6 + i, "n": n, "want": rnd.randint(1, 3), "wr": wr,
+                        "refuse": [x for x in wr if rnd.random() < 0.3],
+                        "downs": [x for x in range(1, n + 1) if rnd.random() < 0.3], "rseed": ctx.seed * 13 + i})
+        ov = ctx.harness_overlay("sdk/go/keepclient", "harness/C12_keepclient")
+        ev2, _ = ctx.go_run_driver("sdk/go/keepclient", ov, "TestVerifC12E2E$", e2e, timeout=1800)
+        ctx.extra["e2e_traces"] = len(vlib.split_traces(ev2))
+        ctx.judge(sd, "KeepE2ETrace", "Judge_KeepE2E.cfg", ev2, scenario_of={s["id"]: s for s in e2e})
+        ctx.evaluations += ctx.extra["e2e_traces"]
     nontrivial = set()
     for t in traces:
         if len(t[0]["ref"]) >= 2:
